@@ -40,9 +40,9 @@ def thorough_only_names(pid):
     return res
 
 PROTO_NOTE = (TRUST_COMMON + ' Closure/iterator-adapter bodies of the engine (close handler, session handling, slow start, retry '
-              'accounting, reset) are verified after the mechanical desugaring rules D1-D5/R11/R14 of DESIGN.md 1.1. Still entering E-V only '
+              'accounting, reset) are verified after the mechanical desugaring rules D1-D6/R11/R14 of DESIGN.md 1.1. Still entering E-V only '
               'as assumed contracts (R5 stubs): '
-              'partition_operation_queue_by_queue_policy, sort_operation_deque, '
+              'sort_operation_deque, '
               'complete_operation_with_result/_error; the bounded engine E-B runs the real functions against those contracts on a stated '
               'small scope. Session handling at CONNACK is verified under A-HANDSHAKE/A-OPS (DESIGN.md 6), evaluated by E-B at every CONNACK. '
               'Encoder/Decoder/alias-resolver are opaque shims inside the engine unit.')
